@@ -103,6 +103,14 @@ function obs() {
     if (o1[X] !== 1 || o2[mkr()] !== 1) errs.push("property key: unscanned long import " + JSON.stringify(tk));
     sameAs(pad + A, __goString(pad + String.fromCharCode.apply(null, u)), "pad+a/golong-unscanned", errs);
     sameAs(__goString(pad + String.fromCharCode.apply(null, u)), pad + A, "golong-unscanned/pad+a", errs);
+    // the FIRST use of a fresh import is a concatenation with a string that holds unpaired surrogates (which pair up across the join)
+    var HI = "\ud83d", LO = "\ude00";
+    sameAs(mkr() + HI, X + HI, "golong-unscanned + lone high surrogate", errs);
+    sameAs((mkr() + HI) + LO, X + HI + LO, "(golong-unscanned + high) + low", errs);
+    sameAs(LO + mkr(), LO + X, "lone low surrogate + golong-unscanned", errs);
+    sameAs(mkr().concat(HI, LO), X + HI + LO, "golong-unscanned.concat(high, low)", errs);
+    var acc = mkr(); acc += HI; acc += LO;
+    if (acc.length !== X.length + 2 || acc.codePointAt(X.length) !== 0x1F600) errs.push("golong-unscanned += high += low: " + acc.length);
   }
   for (var i = 0; i < A.length; i++) if (A.charCodeAt(i) !== u[i] || A[i] !== String.fromCharCode(u[i])) errs.push("code unit " + i);
   if (wellFormed(u) && JSON.stringify(__exportUnits(A)) !== JSON.stringify(u)) errs.push("export content " + JSON.stringify(__exportUnits(A)));
